@@ -199,6 +199,10 @@ func c08Run(cfg c08Cfg, plan c08Plan) c08Out {
 		add("harness", s.failed)
 		return out
 	}
+	if len(s.replyLost) > 0 {
+		add("reply-lost", s.replyLost[0]+"; history: "+s.history())
+		return out
+	}
 	if snapPanic {
 		return out
 	}
